@@ -87,6 +87,9 @@ def units(ctx, prop):
                 for sh1 in range(len(ELL_SHAPES)):
                     us.append(("ell", prop, spec, sc, sh1, ctx.seed, ctx.thorough))
         us.append(("errors", prop))
+        for spec in [("comp", 2), ("theta", 60), ("theta", 135)]:
+            for sc in sorted(set([2.0 ** -14, lattice.SCALES[3], scs[0]])):  # tiny scales (covariances 4e-9 / 1.5e-8: below any absolute "unchanged" tolerance) always, plus one more
+                us.append(("ellseq", prop, spec, sc, ctx.seed))
     else:  # C11
         fam2 = cones.family_2d(ctx.thorough, ctx.seed)
         if not ctx.thorough:
@@ -284,7 +287,7 @@ def run_ell(unit, res):
     cgrid = (-2, -1, 0, 1, 2)
     sh2s = range(len(ELL_SHAPES))
     if not thorough:
-        labels = labels[:2] if prop == "C09" else ["zero", "facetvec"]
+        labels = ["zero", "facetvec"]  # the per-facet vector (unequal entries) is the form the algorithms pass
         sh2s = [sh1, (sh1 + 1) % len(ELL_SHAPES), (sh1 + 3) % len(ELL_SHAPES)]
     nv = 0
     n = 0
@@ -305,6 +308,71 @@ def run_ell(unit, res):
                                     return
     res["outcomes"].append(f"{prop}:ell:{cones.name(spec)}:{sc}:{sh1}:{res['counters'].get('ell_true', 0)}")
     res["samples"].append({"kind": "ellipsoid", "cone": cones.name(spec), "scale": sc, "shape1": ELL_SHAPES[sh1], "cases": n})
+
+
+# ---------------------------------------------------------------------------------------------
+# region OBJECTS reused across rounds (as the design space does): sequences of update() on the same two
+# ellipsoid objects, predicate evaluated after every update - nothing may be remembered from earlier shapes
+
+
+def run_ellseq(unit, res, only=None):
+    _, prop, spec, sc, seed = unit
+    core.import_vopy()
+    from vopy.confidence_region import EllipsoidalConfidenceRegion, confidence_region_is_covered, confidence_region_is_dominated
+
+    order = cones.make_order(spec)
+    W = order.ordering_cone.W
+    off = _offset(seed, 2, sc)
+    shapes = [np.array(x, float) for x in ELL_SHAPES]
+    # states: (centre in lattice units, covariance factor, radius); sizes differ by up to 64x
+    SA = [((0, 0), shapes[0], 1.0), ((0, 0), shapes[0] / 64.0, 1.0), ((0.5, 0), shapes[3], 0.5), ((0, 0.5), shapes[1], 1.0)]
+    SB = [((2, 2), shapes[0], 1.0), ((0.3, 0.3), shapes[0] / 64.0, 1.0), ((1.5, -1), shapes[4], 0.5), ((-1, 1.5), shapes[2], 1.0), ((0.2, -0.2), shapes[3] / 16.0, 1.0)]
+    slack = dict(slack_forms(prop, W, sc, "ell"))["facetvec" if prop == "C09" else "zero"]
+    fn = confidence_region_is_dominated if prop == "C09" else confidence_region_is_covered
+    nv = 0
+    n = 0
+    for seqA in itertools.product(range(len(SA)), repeat=3):
+        for seqB in itertools.product(range(len(SB)), repeat=3):
+            if (sum(seqA) + 2 * sum(seqB)) % 4 != seed % 4:
+                continue  # a quarter of the product per seed
+            if only is not None and [list(seqA), list(seqB)] != only:
+                continue
+            A, B = EllipsoidalConfidenceRegion(2), EllipsoidalConfidenceRegion(2)
+            n += 1
+            for k in range(3):
+                ca, Sa, ra = SA[seqA[k]]
+                cb, Sb, rb = SB[seqB[k]]
+                c1, c2 = off + np.array(ca, float) * sc, off + np.array(cb, float) * sc
+                S1, S2 = Sa * sc * sc, Sb * sc * sc
+                A.update(c1.copy(), S1.copy(), np.array(ra))
+                B.update(c2.copy(), S2.copy(), np.array(rb))
+                res["evaluations"] += 1
+                got = bool(fn(order, A, B, slack))
+                tau = oracles.tau_for(c1, c2, [sc])
+                if prop == "C09":
+                    v = min(oracles.ell_dominated_values(W, c1, S1, ra, c2, S2, rb, slack))
+                    verdict = oracles.tri(v, tau)
+                else:
+                    lo, hi = oracles.ell_covered_bounds(W, c1, S1, ra, c2, S2, rb, slack)
+                    verdict = 1 if lo > tau else (-1 if hi < -tau else 0)
+                    v = lo if verdict >= 0 else hi
+                if verdict == 0:
+                    res["boundary_skipped"] += 1
+                    continue
+                res["nontrivial"] += 1
+                core.bump(res, "ellseq_true" if verdict > 0 else "ellseq_false")
+                if got != (verdict > 0):
+                    res["violations"].append(core.violation(
+                        prop, {"kind": "ell-object-reuse", "cone_class": cones.cone_class(spec)},
+                        {"mode": "ellseq", "unit": list(unit), "seqA": list(seqA), "seqB": list(seqB)}, verdict > 0, got,
+                        f"two ellipsoid objects updated through states A{list(seqA[: k + 1])} / B{list(seqB[: k + 1])} at scale {sc}: after update #{k + 1} the predicate answers {got}, "
+                        f"the regions now displayed (centres {c1.tolist()}, {c2.tolist()}) give certified value {v:.3e} (tau {tau:.1e}) cone={cones.name(spec)}"))
+                    nv += 1
+                    break
+            if nv >= 3:
+                return
+    res["outcomes"].append(f"{prop}:ellseq:{cones.name(spec)}:{sc}")
+    res["samples"].append({"kind": "ellipsoid objects reused across updates", "cone": cones.name(spec), "scale": sc, "sequence_pairs": n})
 
 
 # ---------------------------------------------------------------------------------------------
@@ -423,6 +491,8 @@ def run_unit(unit):
         run_ell(unit, res)
     elif unit[0] == "errors":
         run_errors(unit[1], res)
+    elif unit[0] == "ellseq":
+        run_ellseq(unit, res)
     elif unit[0] == "pess":
         run_pess(unit, res)
     return res
@@ -444,6 +514,11 @@ def replay_case(case):
                      case["sh2"], case["r2"], case["slack"], res)
     elif case["mode"] == "pess":
         v = pess_case(_spec(case["spec"]), case["m"], case["sc"], case["st"], case["seed"], case["i1"], case["i2"], case["sub"], res, case.get("far", 0))
+    elif case["mode"] == "ellseq":
+        u = list(case["unit"])
+        u[2] = _spec(u[2])
+        run_ellseq(tuple(u), res, only=[list(case["seqA"]), list(case["seqB"])])
+        return res["violations"]
     elif case["mode"] == "errors":
         run_errors(case["prop"], res)
         return res["violations"]
